@@ -472,6 +472,82 @@ def _(M, a):
     return (0, mkerr('strconv.Atoi: parsing "%s": invalid syntax' % s))
 
 
+def _parse_int(fn, s, base, bits, signed):
+    """strconv.ParseInt / ParseUint on a concrete string (base prefixes and underscores only with base 0)"""
+    t = s
+    neg = False
+    if signed and t[:1] in ('+', '-'):
+        neg = t[0] == '-'
+        t = t[1:]
+    b = base
+    if base == 0:
+        b = 10
+        low = t.lower()
+        for pre, bb in (('0x', 16), ('0b', 2), ('0o', 8)):
+            if low.startswith(pre):
+                b, t = bb, t[2:]
+                break
+        else:
+            if len(t) > 1 and t[0] == '0':
+                b, t = 8, t[1:]
+        t = t.replace('_', '')
+    digits = '0123456789abcdefghijklmnopqrstuvwxyz'[:b] if 2 <= b <= 36 else ''
+    if not t or not digits or any(ch not in digits for ch in t.lower()):
+        return (0, mkerr('strconv.%s: parsing "%s": invalid syntax' % (fn, s)))
+    v = int(t, b)
+    if bits == 0:
+        bits = 64
+    if signed:
+        v = -v if neg else v
+        lo, hi = -(1 << (bits - 1)), (1 << (bits - 1)) - 1
+    else:
+        lo, hi = 0, (1 << bits) - 1
+    if v < lo or v > hi:
+        return (hi if v > hi else lo, mkerr('strconv.%s: parsing "%s": value out of range' % (fn, s)))
+    return (v, None)
+
+
+@intr('strconv.ParseUint')
+def _(M, a):
+    for x in a[:3]:
+        need_conc(x)
+    return _parse_int('ParseUint', a[0], a[1], a[2], False)
+
+
+@intr('strconv.ParseInt')
+def _(M, a):
+    for x in a[:3]:
+        need_conc(x)
+    return _parse_int('ParseInt', a[0], a[1], a[2], True)
+
+
+@intr('strconv.FormatInt')
+def _(M, a):
+    for x in a[:2]:
+        need_conc(x)
+    v, b = a[0], a[1]
+    if b == 10:
+        return str(v)
+    digs = '0123456789abcdefghijklmnopqrstuvwxyz'
+    n, out = abs(v), ''
+    while True:
+        out = digs[n % b] + out
+        n //= b
+        if n == 0:
+            break
+    return ('-' if v < 0 else '') + out
+
+
+@intr('strconv.ParseBool')
+def _(M, a):
+    need_conc(a[0])
+    if a[0] in ('1', 't', 'T', 'TRUE', 'true', 'True'):
+        return (True, None)
+    if a[0] in ('0', 'f', 'F', 'FALSE', 'false', 'False'):
+        return (False, None)
+    return (False, mkerr('strconv.ParseBool: parsing "%s": invalid syntax' % a[0]))
+
+
 @intr('strconv.Itoa')
 def _(M, a):
     need_conc(a[0])
